@@ -252,6 +252,9 @@ func (c *Ctx) Finish() int {
 	if len(c.samples) == 0 {
 		cov["samples"] = []interface{}{"(none)"}
 	}
+	if c.Assumptions == nil {
+		c.Assumptions = []string{}
+	}
 	ev := map[string]interface{}{
 		"property_id": c.ID,
 		"tier":        c.Tier,
@@ -265,7 +268,9 @@ func (c *Ctx) Finish() int {
 	dir := filepath.Join(VerifRoot(), "evidence")
 	_ = os.MkdirAll(dir, 0o755)
 	bz, _ := json.MarshalIndent(ev, "", " ")
-	if err := os.WriteFile(filepath.Join(dir, c.ID+".json"), bz, 0o644); err != nil {
+	if !strings.HasPrefix(c.ID, "C") {
+		// not a property (smoke test): no evidence file
+	} else if err := os.WriteFile(filepath.Join(dir, c.ID+".json"), bz, 0o644); err != nil {
 		fmt.Fprintf(Out, "cannot write evidence: %v\n", err)
 		return 2
 	}
